@@ -3,28 +3,33 @@ import GqlVerif.Proofs.C01AbstractI
 # C01 / C03 end to end: fragment spreads at abstract positions (`VariantSpreadOp`), part A: class, closed form
 
 `VariantSpreadOp` extends `VariantOp`: in a selection set on an interface / union typed field, besides `__typename`,
-interface-level fields and inline fragments on possible types, **spreads of named fragments on a possible (object)
-type** are allowed (part (a) of the task).  A spread on the possible type `T` is a variant selection like an inline
-fragment on `T`:
+interface-level fields and inline fragments on possible types, two kinds of named fragment spreads are allowed.
 
+**(a) spreads of fragments on a possible (object) type** `T` — a variant selection like an inline fragment on `T`:
 * a variant whose only selection is one such spread is the type alias `type …On<T> = F`;
 * several selections on one variant (at most one inline fragment and any number of spreads) contribute to one struct
   `…On<T>`: the inline fragment's fields as own members, every spread as a `#[serde(flatten)]` member `snake(F): F`,
   in selection order.
+  Fragment bodies: spread-free object-level selection sets of the class `VariantOp` (`fragOk`, as for `FragmentOp`).
 
-Fragment bodies are spread-free object-level selection sets of the class `VariantOp` (`fragOk`, as for `FragmentOp`).
-The class is closed under nesting: the sub-selections of fields and the bodies of inline fragments are selection
-sets of the class again.
+**(b) spreads of fragments on the abstract type itself** — one more `#[serde(flatten)]` member
+`keyword_replace(snake(F)): F` of the interface-level struct, in selection order among the own fields, before the flattened
+`on`; the variants are unaffected.  Fragment bodies: spread-free abstract-level selection sets of `VariantOp` on the same
+type (`fragOkB`): the fragment's own type(s) are those of an abstract position (struct + tagged enum, or tagged enum).
 
-Decidable side conditions at an abstract position (`absOkS`): those of `absOk`, every spread is `fragOk` on a
-possible type, **no field key of a spread fragment is an interface-level response key**, and **the field keys of the
-selections on one variant are pairwise distinct** (`varKeys`) — both necessary, see `C01VariantSpread.lean`.
+The class is closed under nesting: the sub-selections of fields and the bodies of inline fragments are selection sets
+of the class again.  Decidable side conditions at an abstract position (`absOkS`): those of `absOk` (so `__typename` is
+selected at the position itself); every spread `spreadOkA` — `fragOk` on a possible type and **no field key of the
+fragment is an interface-level response key** — or `spreadOkB` — `fragOkB` and **no field key of the fragment (those
+inside its inline fragments included) is an interface-level field key**; **the field keys of the selections on one variant
+are pairwise distinct** (`varKeys`).  All three exclusions are necessary, see `C01VariantSpread.lean`.
 
-* `itemsS` / `variantHead` / `varFields` / `varItems` — closed form of the emitted items;
+* `itemsS` / `fieldsB` / `variantHead` / `varFields` / `varItems` — closed form of the emitted items;
 * `variantspread_items_shape` — `responseItems c op = .ok (structItemsS …)` for every operation of the class.
 
-Out of scope of this part: spreads of fragments on the abstract type itself (part (b)), inline fragments whose body is a
-lone spread, several inline fragments on the same type.
+Out of scope: a selection set on an abstract type that consists of a lone spread (`hero { ...CF }`: type alias of the
+fragment's type; the class requires `__typename` at the position), inline fragments whose body is a lone spread, several
+inline fragments on the same type, spreads inside fragment bodies (recursive fragments).
 -/
 set_option linter.unusedSimpArgs false
 set_option linter.unusedVariables false
@@ -60,12 +65,35 @@ def spreadOkA (s : Schema) (q : Query) (o : Options) (ty : TypeId) (sub : List S
   (vtsOfTy s ty).any (fun vt => fragOk s q o vt g) &&
   (fieldKeys s (fragSels q g)).all (fun k => !(respKeys s sub).contains k)
 
-/-- conditions at an abstract position: those of `absOk`; every spread `spreadOkA`; the field keys selected on one
-    variant pairwise distinct -/
+mutual
+  /-- every field key of a selection set, those inside its inline fragments included -/
+  def deepKey (s : Schema) : Sel → List String
+    | .field a fid _ => (match s.fields[fid]? with | some sf => [a.getD sf.name] | none => [])
+    | .inline _ isub => deepKeys s isub
+    | _ => []
+  def deepKeys (s : Schema) : List Sel → List String
+    | [] => []
+    | x :: xs => deepKey s x ++ deepKeys s xs
+end
+
+/-- a fragment **on the abstract type `ty` itself** that may be spread at a position of type `ty` (part (b)): it exists,
+    is on `ty`, is not named `ID`, and its body is a spread-free abstract-level selection set of the class `VariantOp` -/
+def fragOkB (s : Schema) (q : Query) (o : Options) (ty : TypeId) (g : Nat) : Bool :=
+  match q.fragments[g]? with
+  | some f => f.on == ty && f.name != "ID" && vSels s o true f.sels && absOk s o ty f.sels
+  | none => false
+
+/-- a spread of a fragment on the abstract type itself: `fragOkB`, and none of its field keys (those inside its inline
+    fragments included) is an interface-level **field** key of the position (`__typename` is shared) -/
+def spreadOkB (s : Schema) (q : Query) (o : Options) (ty : TypeId) (sub : List Sel) (g : Nat) : Bool :=
+  fragOkB s q o ty g && (deepKeys s (fragSels q g)).all (fun k => !(fieldKeys s sub).contains k)
+
+/-- conditions at an abstract position: those of `absOk`; every spread `spreadOkA` (part (a)) or `spreadOkB`
+    (part (b)); the field keys selected on one variant pairwise distinct -/
 def absOkS (s : Schema) (q : Query) (o : Options) (ty : TypeId) (sub : List Sel) : Bool :=
   absOk s o ty sub &&
   sub.all (fun x => match x with
-    | .spread g => spreadOkA s q o ty sub g
+    | .spread g => spreadOkA s q o ty sub g || spreadOkB s q o ty sub g
     | _ => true) &&
   (vtsOfTy s ty).all (fun vt => EnumSpec.nodup (varKeys s q vt sub))
 
@@ -118,6 +146,18 @@ def varFields (c : Ctx) (pfx : String) (vt : TypeId) : List Sel → List RField
      | none => []) ++ varFields c pfx vt xs
   | _ :: xs => varFields c pfx vt xs
 
+/-- the fields of the struct at a position of type `ty`: own fields and, **for every spread of a fragment on `ty`
+    itself, a flattened member**, in selection order (`calcFields`; at an object-level selection set of the class there
+    is no spread: `fieldsOfV`) -/
+def fieldOfSelB (c : Ctx) (pfx : String) (ty : TypeId) : Sel → Option RField
+  | .spread g => (match c.q.fragments[g]? with
+    | some f => if f.on == ty then some (spreadField c f) else none
+    | none => none)
+  | x => fieldOfSelV c pfx x
+
+def fieldsB (c : Ctx) (pfx : String) (ty : TypeId) (sels : List Sel) : List RField :=
+  sels.filterMap (fieldOfSelB c pfx ty)
+
 def onVt (q : Query) (vt : TypeId) (x : Sel) : Bool := selOn q x == some vt
 
 /-- the selections attached to the variant `vt` -/
@@ -149,14 +189,14 @@ mutual
               (fieldsOfV c (pfx ++ c.cs.camel (a.getD sf.name)) sub) ::
             itemsSs c (pfx ++ c.cs.camel (a.getD sf.name)) sub
         | .interface k =>
-          renderType c (pfx ++ c.cs.camel (a.getD sf.name)) (fieldsOfV c (pfx ++ c.cs.camel (a.getD sf.name)) sub)
+          renderType c (pfx ++ c.cs.camel (a.getD sf.name)) (fieldsB c (pfx ++ c.cs.camel (a.getD sf.name)) (.interface k) sub)
               (variantsV c (pfx ++ c.cs.camel (a.getD sf.name)) (.interface k) (marks c.q sub)) ++
             (vtsOfTy c.s (.interface k)).flatMap (fun vt =>
               variantHead c (pfx ++ c.cs.camel (a.getD sf.name)) vt sub ++
                 varItems c (pfx ++ c.cs.camel (a.getD sf.name)) vt sub) ++
             itemsSs c (pfx ++ c.cs.camel (a.getD sf.name)) sub
         | .union u =>
-          renderType c (pfx ++ c.cs.camel (a.getD sf.name)) (fieldsOfV c (pfx ++ c.cs.camel (a.getD sf.name)) sub)
+          renderType c (pfx ++ c.cs.camel (a.getD sf.name)) (fieldsB c (pfx ++ c.cs.camel (a.getD sf.name)) (.union u) sub)
               (variantsV c (pfx ++ c.cs.camel (a.getD sf.name)) (.union u) (marks c.q sub)) ++
             (vtsOfTy c.s (.union u)).flatMap (fun vt =>
               variantHead c (pfx ++ c.cs.camel (a.getD sf.name)) vt sub ++
@@ -184,7 +224,7 @@ def structItemsS (c : Ctx) (name pfx : String) (sels : List Sel) : List Item :=
 /-- closed form at an abstract position: the struct / tagged enum, then per possible type the variant's item and the
     nested items of its inline fragment, then the items of the interface-level fields -/
 def absItemsS (c : Ctx) (name pfx : String) (ty : TypeId) (sels : List Sel) : List Item :=
-  renderType c name (fieldsOfV c pfx sels) (variantsV c pfx ty (marks c.q sels)) ++
+  renderType c name (fieldsB c pfx ty sels) (variantsV c pfx ty (marks c.q sels)) ++
     (vtsOfTy c.s ty).flatMap (fun vt => variantHead c pfx vt sels ++ varItems c pfx vt sels) ++ itemsSs c pfx sels
 
 /-! ## basic facts -/
@@ -215,40 +255,73 @@ theorem not_lone_spread_S {s : Schema} {q : Query} {o : Options} {sels : List Se
     ∀ g, sels = [Sel.spread g] → False := by
   intro g hg; subst hg; simp [sSels, sSel] at h
 
+theorem fragOkB_parts {s : Schema} {q : Query} {o : Options} {ty : TypeId} {g : Nat}
+    (h : fragOkB s q o ty g = true) :
+    ∃ f, q.fragments[g]? = some f ∧ f.on = ty ∧ f.name ≠ "ID" ∧ vSels s o true f.sels = true ∧
+      absOk s o ty f.sels = true := by
+  unfold fragOkB at h
+  cases hf : q.fragments[g]? with
+  | none => simp [hf] at h
+  | some f =>
+    simp only [hf, Bool.and_eq_true, beq_iff_eq, bne_iff_ne] at h
+    exact ⟨f, rfl, h.1.1.1, h.1.1.2, h.1.2, h.2⟩
+
+theorem not_recursive_of_fragOkB {s : Schema} {q : Query} {o : Options} {ty : TypeId} {g : Nat}
+    (h : fragOkB s q o ty g = true) : fragmentIsRecursive q g = false := by
+  obtain ⟨f, hf, _, _, hv, _⟩ := fragOkB_parts h
+  unfold fragmentIsRecursive
+  rw [hf]
+  simp only [reaches_noSpreads q g _ [] f.sels (noSpreads_of_vSels s o f.sels true hv)]
+
 theorem absOkS_parts {s : Schema} {q : Query} {o : Options} {ty : TypeId} {sub : List Sel}
     (h : absOkS s q o ty sub = true) :
     absOk s o ty sub = true ∧
-    (∀ g, Sel.spread g ∈ sub → ∃ vt f, vt ∈ vtsOfTy s ty ∧ fragOk s q o vt g = true ∧ q.fragments[g]? = some f ∧
-      f.on = vt ∧ ∀ k ∈ fieldKeys s f.sels, k ∉ respKeys s sub) ∧
+    (∀ g, Sel.spread g ∈ sub →
+      (∃ vt f, vt ∈ vtsOfTy s ty ∧ fragOk s q o vt g = true ∧ q.fragments[g]? = some f ∧
+        f.on = vt ∧ ∀ k ∈ fieldKeys s f.sels, k ∉ respKeys s sub) ∨
+      (∃ f, fragOkB s q o ty g = true ∧ q.fragments[g]? = some f ∧ f.on = ty ∧
+        ∀ k ∈ deepKeys s f.sels, k ∉ fieldKeys s sub)) ∧
     (∀ vt ∈ vtsOfTy s ty, (varKeys s q vt sub).Nodup) := by
   simp only [absOkS, Bool.and_eq_true, List.all_eq_true] at h
   obtain ⟨⟨h1, h2⟩, h3⟩ := h
   refine ⟨h1, ?_, fun vt hvt => nodup_iff'.mp (h3 vt hvt)⟩
   intro g hg
   have := h2 _ hg
-  simp only [spreadOkA, Bool.and_eq_true, List.any_eq_true, List.all_eq_true] at this
-  obtain ⟨⟨vt, hvt, hok⟩, hk⟩ := this
-  obtain ⟨f, hf, hon, _⟩ := fragOk_parts hok
-  refine ⟨vt, f, hvt, hok, hf, hon, ?_⟩
-  intro k hk'
-  have hs : fragSels q g = f.sels := by simp [fragSels, hf]
-  rw [hs] at hk
-  simpa using hk k hk'
+  simp only [Bool.or_eq_true] at this
+  rcases this with this | this
+  · simp only [spreadOkA, Bool.and_eq_true, List.any_eq_true, List.all_eq_true] at this
+    obtain ⟨⟨vt, hvt, hok⟩, hk⟩ := this
+    obtain ⟨f, hf, hon, _⟩ := fragOk_parts hok
+    refine .inl ⟨vt, f, hvt, hok, hf, hon, ?_⟩
+    intro k hk'
+    have hs : fragSels q g = f.sels := by simp [fragSels, hf]
+    rw [hs] at hk
+    simpa using hk k hk'
+  · simp only [spreadOkB, Bool.and_eq_true, List.all_eq_true] at this
+    obtain ⟨hok, hk⟩ := this
+    obtain ⟨f, hf, hon, _⟩ := fragOkB_parts hok
+    refine .inr ⟨f, hok, hf, hon, ?_⟩
+    intro k hk'
+    have hs : fragSels q g = f.sels := by simp [fragSels, hf]
+    rw [hs] at hk
+    simpa using hk k hk'
 
 /-! ### variant selections -/
 
-/-- the selections of a selection set as the generator's `VariantSel`s (every spread is one: its fragment is on
-    another type than the abstract parent) -/
-def vselOfS (q : Query) : Sel → Option VariantSel
+/-- the selections of a selection set on the abstract type `ty` as the generator's `VariantSel`s (a spread is one unless
+    its fragment is on `ty` itself) -/
+def vselOfS (q : Query) (ty : TypeId) : Sel → Option VariantSel
   | .inline t sub => some (.inline t sub)
-  | .spread g => (q.fragments[g]?).map (fun f => .spread g f)
+  | .spread g => (match q.fragments[g]? with
+    | some f => if f.on == ty then none else some (.spread g f)
+    | none => none)
   | _ => none
 
-def vselsOfS (q : Query) (sels : List Sel) : List VariantSel := sels.filterMap (vselOfS q)
+def vselsOfS (q : Query) (ty : TypeId) (sels : List Sel) : List VariantSel := sels.filterMap (vselOfS q ty)
 
 theorem filterMapM_variantSelS (q : Query) (ty : TypeId) : ∀ (sels : List Sel),
-    (∀ g, Sel.spread g ∈ sels → ∃ f, q.fragments[g]? = some f ∧ f.on ≠ ty) →
-    sels.filterMapM (variantSelOf q ty) = .ok (vselsOfS q sels)
+    (∀ g, Sel.spread g ∈ sels → ∃ f, q.fragments[g]? = some f) →
+    sels.filterMapM (variantSelOf q ty) = .ok (vselsOfS q ty sels)
   | [], _ => rfl
   | x :: xs, h => by
     have ih := filterMapM_variantSelS q ty xs (fun g hm => h g (List.mem_cons_of_mem _ hm))
@@ -257,13 +330,17 @@ theorem filterMapM_variantSelS (q : Query) (ty : TypeId) : ∀ (sels : List Sel)
     | field a fid sub => simp [variantSelOf, ih, vselsOfS, vselOfS, List.filterMap_cons, bind, Except.bind, pure, Except.pure]
     | inline t sub => simp [variantSelOf, ih, vselsOfS, vselOfS, List.filterMap_cons, bind, Except.bind, pure, Except.pure]
     | spread g =>
-      obtain ⟨f, hf, hne⟩ := h g (by simp)
-      have hne' : (f.on == ty) = false := by simpa using hne
-      simp [variantSelOf, ih, vselsOfS, vselOfS, List.filterMap_cons, bind, Except.bind, pure, Except.pure,
-        getFragment_of hf, hf, hne']
+      obtain ⟨f, hf⟩ := h g (by simp)
+      by_cases hne : f.on = ty
+      · have hne' : (f.on == ty) = true := by simpa using hne
+        simp [variantSelOf, ih, vselsOfS, vselOfS, List.filterMap_cons, bind, Except.bind, pure, Except.pure,
+          getFragment_of hf, hf, hne']
+      · have hne' : (f.on == ty) = false := by simpa using hne
+        simp [variantSelOf, ih, vselsOfS, vselOfS, List.filterMap_cons, bind, Except.bind, pure, Except.pure,
+          getFragment_of hf, hf, hne']
     | typename => simp [variantSelOf, ih, vselsOfS, vselOfS, List.filterMap_cons, bind, Except.bind, pure, Except.pure]
 
-theorem typeId_vselOfS (q : Query) (x : Sel) (v : VariantSel) (h : vselOfS q x = some v) :
+theorem typeId_vselOfS (q : Query) (ty : TypeId) (x : Sel) (v : VariantSel) (h : vselOfS q ty x = some v) :
     selOn q x = some v.typeId := by
   cases x with
   | inline t sub => simp only [vselOfS, Option.some.injEq] at h; subst h; rfl
@@ -271,25 +348,47 @@ theorem typeId_vselOfS (q : Query) (x : Sel) (v : VariantSel) (h : vselOfS q x =
     simp only [vselOfS] at h
     cases hf : q.fragments[g]? with
     | none => simp [hf] at h
-    | some f => simp only [hf, Option.map_some, Option.some.injEq] at h; subst h; simp [selOn, hf, VariantSel.typeId]
+    | some f =>
+      simp only [hf] at h
+      split at h
+      · cases h
+      · simp only [Option.some.injEq] at h; subst h; simp [selOn, hf, VariantSel.typeId]
   | field a fid sub => cases h
   | typename => cases h
 
-theorem filter_vselsOfS (q : Query) (vt : TypeId) : ∀ (sels : List Sel),
-    (vselsOfS q sels).filter (fun v => v.typeId == vt) = vselsOfS q (mineOf q vt sels)
+/-- a selection on a type other than `ty` that yields no variant selection is not on any type -/
+theorem vselOfS_none (q : Query) (ty vt : TypeId) (hne : vt ≠ ty) (x : Sel) (h : vselOfS q ty x = none) :
+    onVt q vt x = false := by
+  cases x with
+  | inline t sub => simp [vselOfS] at h
+  | spread g =>
+    simp only [vselOfS] at h
+    cases hf : q.fragments[g]? with
+    | none => simp [onVt, selOn, hf]
+    | some f =>
+      simp only [hf] at h
+      split at h
+      · rename_i heq
+        have : f.on = ty := by simpa using heq
+        simp only [onVt, selOn, hf, Option.map_some, this]
+        simpa using fun h' => hne h'.symm
+      · cases h
+  | field a fid sub => rfl
+  | typename => rfl
+
+theorem filter_vselsOfS (q : Query) (ty vt : TypeId) (hne : vt ≠ ty) : ∀ (sels : List Sel),
+    (vselsOfS q ty sels).filter (fun v => v.typeId == vt) = vselsOfS q ty (mineOf q vt sels)
   | [] => rfl
   | x :: xs => by
-    have ih := filter_vselsOfS q vt xs
+    have ih := filter_vselsOfS q ty vt hne xs
     unfold vselsOfS mineOf at ih ⊢
     rw [List.filterMap_cons, List.filter_cons]
-    cases hv : vselOfS q x with
+    cases hv : vselOfS q ty x with
     | none =>
-      simp only []
-      by_cases hon : onVt q vt x = true
-      · simp only [hon, ↓reduceIte, List.filterMap_cons, hv]; exact ih
-      · simp only [hon, Bool.false_eq_true, ↓reduceIte]; exact ih
+      simp only [vselOfS_none q ty vt hne x hv, Bool.false_eq_true, ↓reduceIte]
+      exact ih
     | some v =>
-      have := typeId_vselOfS q x v hv
+      have := typeId_vselOfS q ty x v hv
       simp only [List.filter_cons]
       by_cases hon : onVt q vt x = true
       · have hv' : (v.typeId == vt) = true := by
@@ -384,28 +483,61 @@ theorem renderField_member (c : Ctx) (f : RFragment) (hid : f.name ≠ "ID") :
 
 /-! ## Theorem 1 -/
 
-/-- every spread of the selection set is `fragOk` on a type other than `ty` (at an object-level selection set of the
-    class: vacuous, there is no spread) -/
+/-- every spread of the selection set is `fragOk` on a type other than `ty` (part (a)) or `fragOkB` on `ty` itself
+    (part (b)); at an object-level selection set of the class: vacuous, there is no spread -/
 def SpreadsA (c : Ctx) (ty : TypeId) (sels : List Sel) : Prop :=
-  ∀ g, Sel.spread g ∈ sels → ∃ vt f, fragOk c.s c.q c.o vt g = true ∧ c.q.fragments[g]? = some f ∧ f.on = vt ∧ vt ≠ ty
+  ∀ g, Sel.spread g ∈ sels →
+    (∃ vt f, fragOk c.s c.q c.o vt g = true ∧ c.q.fragments[g]? = some f ∧ f.on = vt ∧ vt ≠ ty) ∨
+    (∃ f, fragOkB c.s c.q c.o ty g = true ∧ c.q.fragments[g]? = some f ∧ f.on = ty)
 
 theorem SpreadsA.tail {c : Ctx} {ty : TypeId} {x : Sel} {xs : List Sel} (h : SpreadsA c ty (x :: xs)) :
     SpreadsA c ty xs := fun g hg => h g (List.mem_cons_of_mem _ hg)
 
+theorem SpreadsA.frag {c : Ctx} {ty : TypeId} {sels : List Sel} (h : SpreadsA c ty sels) :
+    ∀ g, Sel.spread g ∈ sels → ∃ f, c.q.fragments[g]? = some f := by
+  intro g hg
+  rcases h g hg with ⟨_, f, _, hf, _⟩ | ⟨f, _, hf, _⟩ <;> exact ⟨f, hf⟩
+
 theorem spreadsA_obj {c : Ctx} {ty : TypeId} {sels : List Sel} (h : sSels c.s c.q c.o false sels = true) :
     SpreadsA c ty sels := fun g hg => absurd hg (no_spread_of_sSels h g)
+
+theorem obj_ne_abs {s : Schema} {ty : TypeId} (hty : absHyp s ty) (i : Nat) : TypeId.object i ≠ ty := by
+  intro heq; subst heq; exact hty
 
 theorem spreadsA_abs {c : Ctx} {ty : TypeId} {sels : List Sel} (hty : absHyp c.s ty)
     (hok : absOkS c.s c.q c.o ty sels = true) : SpreadsA c ty sels := by
   intro g hg
   obtain ⟨hok1, hsp, _⟩ := absOkS_parts hok
-  obtain ⟨vt, f, hvt, hfok, hf, hon, _⟩ := hsp g hg
-  obtain ⟨_, _, hobj, _⟩ := absOk_parts hok1
-  obtain ⟨i, rfl, _⟩ := hobj vt hvt
-  refine ⟨_, f, hfok, hf, hon, ?_⟩
-  intro heq
-  subst heq
-  exact hty
+  rcases hsp g hg with ⟨vt, f, hvt, hfok, hf, hon, _⟩ | ⟨f, hfok, hf, hon, _⟩
+  · obtain ⟨_, _, hobj, _⟩ := absOk_parts hok1
+    obtain ⟨i, rfl, _⟩ := hobj vt hvt
+    exact .inl ⟨_, f, hfok, hf, hon, obj_ne_abs hty i⟩
+  · exact .inr ⟨f, hfok, hf, hon⟩
+
+/-- a selection on the possible type `vt` of `ty` is not a spread of a fragment on `ty` -/
+theorem SpreadsA.onVt {c : Ctx} {ty vt : TypeId} {sels : List Sel} (h : SpreadsA c ty sels) (hne : vt ≠ ty)
+    {g : Nat} (hg : Sel.spread g ∈ sels) (hon : selOn c.q (.spread g) = some vt) :
+    ∃ f, fragOk c.s c.q c.o vt g = true ∧ c.q.fragments[g]? = some f ∧ f.on = vt := by
+  rcases h g hg with ⟨vt', f, hok, hf, hfon, _⟩ | ⟨f, _, hf, hfon⟩
+  · simp only [selOn, hf, Option.map_some, Option.some.injEq] at hon
+    rw [hfon] at hon; subst hon
+    exact ⟨f, hok, hf, hfon⟩
+  · simp only [selOn, hf, Option.map_some, Option.some.injEq] at hon
+    rw [hfon] at hon
+    exact absurd hon.symm hne
+
+theorem fieldsB_noSpread (c : Ctx) (pfx : String) (ty : TypeId) : ∀ (sels : List Sel), (∀ g, Sel.spread g ∉ sels) →
+    fieldsB c pfx ty sels = fieldsOfV c pfx sels
+  | [], _ => rfl
+  | x :: xs, h => by
+    have ih := fieldsB_noSpread c pfx ty xs (fun g hg => h g (List.mem_cons_of_mem _ hg))
+    unfold fieldsB fieldsOfV at ih ⊢
+    rw [List.filterMap_cons, List.filterMap_cons, ih]
+    cases x with
+    | spread g => exact absurd (List.mem_cons_self) (h g)
+    | field a fid sub => rfl
+    | inline t sub => rfl
+    | typename => rfl
 
 section CalcS
 variable (c : Ctx) (hn : c.o.normalization = .none) (N M : Nat)
@@ -418,19 +550,19 @@ def Q1a (fuel : Nat) : Prop := ∀ name pfx ty sels e, selsDepth sels ≤ e → 
   calcSelection c fuel name pfx ty sels = .ok (absItemsS c name pfx ty sels)
 def Q2 (fuel : Nat) : Prop := ∀ name pfx ty sels vts e, InlB N e sels →
   vts.length + 1 + sels.length + 1 + C02.Fneed N M e N ≤ fuel →
-  sSels c.s c.q c.o true sels = true → SpreadsA c ty sels →
+  absHyp c.s ty → sSels c.s c.q c.o true sels = true → SpreadsA c ty sels →
   (∀ t ∈ vts, ∃ i, t = .object i ∧ (c.s.objects[i]?).isSome = true) →
-  calcVariants c fuel name pfx (vselsOfS c.q sels) vts =
+  calcVariants c fuel name pfx (vselsOfS c.q ty sels) vts =
     .ok (vts.map (variantOf c pfx (marks c.q sels)),
          vts.flatMap (fun vt => variantHead c pfx vt sels ++ varItems c pfx vt sels))
 def Q3 (fuel : Nat) : Prop := ∀ sname pfx ty vt ms e, InlB N e ms →
   ms.length + 1 + C02.Fneed N M e N ≤ fuel →
-  sSels c.s c.q c.o true ms = true → SpreadsA c ty ms → (∀ x ∈ ms, selOn c.q x = some vt) →
+  absHyp c.s ty → sSels c.s c.q c.o true ms = true → SpreadsA c ty ms → (∀ x ∈ ms, selOn c.q x = some vt) →
   (∃ i, vt = .object i ∧ (c.s.objects[i]?).isSome = true) →
-  calcVariantSels c fuel sname pfx vt (vselsOfS c.q ms) = .ok (varFields c pfx vt ms, varItems c pfx vt ms, [])
+  calcVariantSels c fuel sname pfx vt (vselsOfS c.q ty ms) = .ok (varFields c pfx vt ms, varItems c pfx vt ms, [])
 def Q4 (fuel : Nat) : Prop := ∀ pfx ty sels e abs, selsDepth sels ≤ e → selsSize sels ≤ N →
   C02.Fneed N M e sels.length ≤ fuel → sSels c.s c.q c.o abs sels = true → SpreadsA c ty sels →
-  calcFields c fuel pfx ty sels = .ok (fieldsOfV c pfx sels, itemsSs c pfx sels)
+  calcFields c fuel pfx ty sels = .ok (fieldsB c pfx ty sels, itemsSs c pfx sels)
 
 theorem stepQ1o (f : Nat) (H4 : Q4 c N M f) : Q1o c N M (f + 1) := by
   intro name pfx i sels e hD hS hF ht
@@ -441,7 +573,7 @@ theorem stepQ1o (f : Nat) (H4 : Q4 c N M f) : Q1o c N M (f + 1) := by
     cases e with
     | zero => simp only [C02.Fneed]; unfold C02.Sb at hF; omega
     | succ e' => simp only [C02.Fneed]; rw [C02.Sb_succ] at hF; omega) ht (spreadsA_obj ht)
-  simp only [hv, bind, Except.bind, pure, Except.pure, hfields]
+  simp only [hv, bind, Except.bind, pure, Except.pure, hfields, fieldsB_noSpread c pfx _ sels (no_spread_of_sSels ht)]
   simp [renderType, structItemsS]
 
 include hn in
@@ -482,7 +614,7 @@ theorem stepQ4 (f : Nat) (H1o : Q1o c N M f) (H1a : Q1a c N M f) (H4 : Q4 c N M 
             | some sn =>
               simp only [getScalar_of hk, hn, C02.fieldType_none, renderField_tree c _ _ _ _ hw hdep', hR,
                 pure, Except.pure]
-              simp [fieldsOfV, itemsSs, itemsS, fieldOfSelV, hsf, hid, leafNameV, hk]
+              simp [fieldsB, fieldOfSelB, itemsSs, itemsS, fieldOfSelV, hsf, hid, leafNameV, hk]
           | «enum» k =>
             simp only [hid, Bool.and_eq_true] at hty
             cases hk : c.s.enums[k]? with
@@ -490,44 +622,50 @@ theorem stepQ4 (f : Nat) (H1o : Q1o c N M f) (H1a : Q1a c N M f) (H4 : Q4 c N M 
             | some en =>
               simp only [getEnum_of hk, hn, C02.fieldType_none, renderField_tree c _ _ _ _ hw hdep', hR,
                 pure, Except.pure]
-              simp [fieldsOfV, itemsSs, itemsS, fieldOfSelV, hsf, hid, leafNameV, hk]
+              simp [fieldsB, fieldOfSelB, itemsSs, itemsS, fieldOfSelV, hsf, hid, leafNameV, hk]
           | object i =>
             simp only [hid, Bool.and_eq_true] at hty
             have hS' := H1o (pfx ++ c.cs.camel (a.getD sf.name)) (pfx ++ c.cs.camel (a.getD sf.name)) i sub e
               (by omega) (by omega) (by omega) hty.1.2
             simp only [renderField_tree c _ _ _ _ hw hdep', hS', hR, pure, Except.pure]
-            simp [fieldsOfV, itemsSs, itemsS, fieldOfSelV, hsf, hid, leafNameV, structItemsS]
+            simp [fieldsB, fieldOfSelB, itemsSs, itemsS, fieldOfSelV, hsf, hid, leafNameV, structItemsS]
           | interface k =>
             simp only [hid, Bool.and_eq_true] at hty
             have hS' := H1a (pfx ++ c.cs.camel (a.getD sf.name)) (pfx ++ c.cs.camel (a.getD sf.name)) (.interface k) sub e
               (by omega) (by omega) (by omega) hty.1.1 hty.1.2 hty.2
             simp only [renderField_tree c _ _ _ _ hw hdep', hS', hR, pure, Except.pure]
-            simp [fieldsOfV, itemsSs, itemsS, fieldOfSelV, hsf, hid, leafNameV, absItemsS]
+            simp [fieldsB, fieldOfSelB, itemsSs, itemsS, fieldOfSelV, hsf, hid, leafNameV, absItemsS]
           | union k =>
             simp only [hid, Bool.and_eq_true] at hty
             have hS' := H1a (pfx ++ c.cs.camel (a.getD sf.name)) (pfx ++ c.cs.camel (a.getD sf.name)) (.union k) sub e
               (by omega) (by omega) (by omega) hty.1.1 hty.1.2 hty.2
             simp only [renderField_tree c _ _ _ _ hw hdep', hS', hR, pure, Except.pure]
-            simp [fieldsOfV, itemsSs, itemsS, fieldOfSelV, hsf, hid, leafNameV, absItemsS]
+            simp [fieldsB, fieldOfSelB, itemsSs, itemsS, fieldOfSelV, hsf, hid, leafNameV, absItemsS]
           | input k => simp [hid] at hty
       | spread g =>
         rw [calcFields.eq_4]
-        obtain ⟨vt, fr, _, hfr, hon, hne⟩ := hsp g (by simp)
-        have hne' : (fr.on != ty) = true := by rw [hon]; simpa using hne
-        simp only [getFragment_of hfr, bind, Except.bind, hR, hne', ↓reduceIte, pure, Except.pure]
-        have h1 : fieldOfSelV c pfx (.spread g) = none := rfl
         have h2 : itemsS c pfx (.spread g) = [] := by simp [itemsS]
-        simp [fieldsOfV, itemsSs, h1, h2]
+        rcases hsp g (by simp) with ⟨vt, fr, _, hfr, hon, hne⟩ | ⟨fr, hokB, hfr, hon⟩
+        · have hne' : (fr.on != ty) = true := by rw [hon]; simpa using hne
+          have hne2 : (fr.on == ty) = false := by rw [hon]; simpa using hne
+          simp only [getFragment_of hfr, bind, Except.bind, hR, hne', ↓reduceIte, pure, Except.pure]
+          simp [fieldsB, fieldOfSelB, hfr, hne2, itemsSs, h2]
+        · obtain ⟨fr', hfr', _, hname, _, _⟩ := fragOkB_parts hokB
+          rw [hfr] at hfr'; cases hfr'
+          have hne' : (fr.on != ty) = false := by simp [hon]
+          simp only [getFragment_of hfr, bind, Except.bind, hR, hne', Bool.false_eq_true, ↓reduceIte,
+            not_recursive_of_fragOkB hokB, renderField_spread c fr hname, pure, Except.pure]
+          simp [fieldsB, fieldOfSelB, hfr, hon, itemsSs, h2]
       | inline t sub =>
         rw [calcFields.eq_5 _ _ _ _ _ _ (by simp) (by simp), hR]
-        have h1 : fieldOfSelV c pfx (.inline t sub) = none := rfl
         have h2 : itemsS c pfx (.inline t sub) = [] := by simp [itemsS]
-        simp [fieldsOfV, itemsSs, h1, h2]
+        have h1 : fieldOfSelB c pfx ty (.inline t sub) = none := rfl
+        simp [fieldsB, List.filterMap_cons, h1, itemsSs, h2]
       | typename =>
         rw [calcFields.eq_5 _ _ _ _ _ _ (by simp) (by simp), hR]
-        have h1 : fieldOfSelV c pfx .typename = none := rfl
         have h2 : itemsS c pfx .typename = [] := by simp [itemsS]
-        simp [fieldsOfV, itemsSs, h1, h2]
+        have h1 : fieldOfSelB c pfx ty .typename = none := rfl
+        simp [fieldsB, List.filterMap_cons, h1, itemsSs, h2]
 
 theorem sSels_filter {s : Schema} {q : Query} {o : Options} {abs : Bool} (p : Sel → Bool) : ∀ {sels : List Sel},
     sSels s q o abs sels = true → sSels s q o abs (sels.filter p) = true
@@ -541,13 +679,13 @@ theorem sSels_filter {s : Schema} {q : Query} {o : Options} {abs : Bool} (p : Se
     · exact ih
 
 theorem stepQ3 (f : Nat) (H3 : Q3 c N M f) (H4 : Q4 c N M f) : Q3 c N M (f + 1) := by
-  intro sname pfx ty vt ms e hI hF ht hsp hon hobj
+  intro sname pfx ty vt ms e hI hF hty ht hsp hon hobj
   cases ms with
-  | nil => rw [show vselsOfS c.q [] = [] from rfl, calcVariantSels.eq_2 _ _ _ _ _ (by omega)]; rfl
+  | nil => rw [show vselsOfS c.q ty [] = [] from rfl, calcVariantSels.eq_2 _ _ _ _ _ (by omega)]; rfl
   | cons x rest =>
     simp only [List.length_cons] at hF
     obtain ⟨hx, hrest⟩ := sSels_cons ht
-    have hR := H3 sname pfx ty vt rest e (fun t sub hm => hI t sub (List.mem_cons_of_mem _ hm)) (by omega) hrest hsp.tail
+    have hR := H3 sname pfx ty vt rest e (fun t sub hm => hI t sub (List.mem_cons_of_mem _ hm)) (by omega) hty hrest hsp.tail
       (fun y hy => hon y (List.mem_cons_of_mem _ hy)) hobj
     have honx := hon x (by simp)
     cases x with
@@ -561,43 +699,47 @@ theorem stepQ3 (f : Nat) (H3 : Q3 c N M f) (H4 : Q4 c N M f) : Q3 c N M (f + 1) 
       have hfields := H4 (pfx ++ "On" ++ c.cs.camel (objName c.s (.object i))) (.object i) isub e false hd hs (by
         have := C02.Fneed_mono N M e (Nat.le_trans (C02.length_le_selsSize isub) hs)
         omega) hsub (spreadsA_obj hsub)
-      rw [show vselsOfS c.q (Sel.inline (.object i) isub :: rest) = .inline (.object i) isub :: vselsOfS c.q rest from rfl,
+      rw [fieldsB_noSpread c _ _ isub (no_spread_of_sSels hsub)] at hfields
+      rw [show vselsOfS c.q ty (Sel.inline (.object i) isub :: rest) = .inline (.object i) isub :: vselsOfS c.q ty rest from rfl,
         calcVariantSels.eq_4 _ _ _ _ _ _ _ _ (not_lone_spread_S hsub)]
       simp only [typeName_obj hi, bind, Except.bind, pure, Except.pure, hfields, hR]
       simp [varFields, varItems, varItem]
     | spread g =>
-      obtain ⟨vt', fr, hok, hfr, hfon, _⟩ := hsp g (by simp)
+      obtain ⟨i, rfl, hi⟩ := hobj
+      obtain ⟨fr, hok, hfr, hfon⟩ := hsp.onVt (obj_ne_abs hty i) (List.mem_cons_self) honx
       obtain ⟨fr', hfr', _, hname, _, _⟩ := fragOk_parts hok
       rw [hfr] at hfr'; cases hfr'
-      simp only [selOn, hfr, Option.map_some, Option.some.injEq] at honx
-      rw [show vselsOfS c.q (Sel.spread g :: rest) = .spread g fr :: vselsOfS c.q rest from by
-        simp [vselsOfS, vselOfS, hfr, List.filterMap_cons], calcVariantSels.eq_5]
+      have hne2 : (fr.on == ty) = false := by rw [hfon]; simpa using obj_ne_abs hty i
+      rw [show vselsOfS c.q ty (Sel.spread g :: rest) = .spread g fr :: vselsOfS c.q ty rest from by
+        simp [vselsOfS, vselOfS, hfr, hne2, List.filterMap_cons], calcVariantSels.eq_5]
       simp only [not_recursive_of_fragOk hok, renderField_member c fr hname, bind, Except.bind, pure, Except.pure, hR]
-      simp [varFields, varItems, varItem, hfr, honx]
+      simp [varFields, varItems, varItem, hfr, hfon]
     | field a fid sub => simp [selOn] at honx
     | typename => simp [selOn] at honx
 
-theorem vselsOfS_cons_of_on (q : Query) (vt : TypeId) (x : Sel) (rest : List Sel)
+theorem vselsOfS_cons_of_on (q : Query) (ty vt : TypeId) (hne : vt ≠ ty) (x : Sel) (rest : List Sel)
     (hfr : ∀ g, Sel.spread g ∈ x :: rest → ∃ f, q.fragments[g]? = some f) (hon : selOn q x = some vt) :
-    ∃ v, vselsOfS q (x :: rest) = v :: vselsOfS q rest ∧
+    ∃ v, vselsOfS q ty (x :: rest) = v :: vselsOfS q ty rest ∧
       (∀ t isub, x = .inline t isub → v = .inline t isub) ∧ (∀ g, x = .spread g → ∃ f, v = .spread g f) := by
   cases x with
   | inline t isub => exact ⟨.inline t isub, rfl, fun _ _ h => (by cases h; rfl), fun _ h => (by cases h)⟩
   | spread g =>
     obtain ⟨f, hf⟩ := hfr g (by simp)
-    exact ⟨.spread g f, by simp [vselsOfS, vselOfS, hf, List.filterMap_cons], fun _ _ h => (by cases h),
+    have hfon : f.on = vt := by simpa [selOn, hf] using hon
+    have hne2 : (f.on == ty) = false := by rw [hfon]; simpa using hne
+    exact ⟨.spread g f, by simp [vselsOfS, vselOfS, hf, hne2, List.filterMap_cons], fun _ _ h => (by cases h),
       fun _ h => (by cases h; exact ⟨f, rfl⟩)⟩
   | field a fid sub => simp [selOn] at hon
   | typename => simp [selOn] at hon
 
-theorem vselsOfS_shape (q : Query) (vt : TypeId) (ms : List Sel)
+theorem vselsOfS_shape (q : Query) (ty vt : TypeId) (hne' : vt ≠ ty) (ms : List Sel)
     (hfr : ∀ g, Sel.spread g ∈ ms → ∃ f, q.fragments[g]? = some f) (hon : ∀ x ∈ ms, selOn q x = some vt)
     (hne : ms ≠ []) (hns : ∀ g, ms ≠ [Sel.spread g]) :
-    ∃ v vs, vselsOfS q ms = v :: vs ∧ ∀ fid f, v :: vs ≠ [VariantSel.spread fid f] := by
+    ∃ v vs, vselsOfS q ty ms = v :: vs ∧ ∀ fid f, v :: vs ≠ [VariantSel.spread fid f] := by
   cases ms with
   | nil => exact absurd rfl hne
   | cons x rest =>
-    obtain ⟨v, hv, hvi, hvs⟩ := vselsOfS_cons_of_on q vt x rest hfr (hon x (by simp))
+    obtain ⟨v, hv, hvi, hvs⟩ := vselsOfS_cons_of_on q ty vt hne' x rest hfr (hon x (by simp))
     refine ⟨v, _, hv, ?_⟩
     intro fid f heq
     cases rest with
@@ -608,21 +750,22 @@ theorem vselsOfS_shape (q : Query) (vt : TypeId) (ms : List Sel)
       | field a fid' sub => have := hon _ (List.mem_cons_self); simp [selOn] at this
       | typename => have := hon _ (List.mem_cons_self); simp [selOn] at this
     | cons y rest' =>
-      obtain ⟨v', hv', _, _⟩ := vselsOfS_cons_of_on q vt y rest' (fun g hg => hfr g (List.mem_cons_of_mem _ hg))
+      obtain ⟨v', hv', _, _⟩ := vselsOfS_cons_of_on q ty vt hne' y rest' (fun g hg => hfr g (List.mem_cons_of_mem _ hg))
         (hon y (by simp))
       rw [hv'] at heq
       cases heq
 
 theorem stepQ2 (f : Nat) (H2 : Q2 c N M f) (H3 : Q3 c N M f) : Q2 c N M (f + 1) := by
-  intro name pfx ty sels vts e hI hF ht hsp hobj
+  intro name pfx ty sels vts e hI hF hty ht hsp hobj
   cases vts with
   | nil => rw [calcVariants.eq_2 _ _ _ _ _ (by omega)]; rfl
   | cons vt rest =>
     simp only [List.length_cons] at hF
-    have hrest := H2 name pfx ty sels rest e hI (by omega) ht hsp (fun t h => hobj t (List.mem_cons_of_mem _ h))
+    have hrest := H2 name pfx ty sels rest e hI (by omega) hty ht hsp (fun t h => hobj t (List.mem_cons_of_mem _ h))
     obtain ⟨i, rfl, hi⟩ := hobj vt (by simp)
     rw [calcVariants.eq_3]
-    simp only [typeName_obj hi, bind, Except.bind, filter_vselsOfS]
+    have hvne : TypeId.object i ≠ ty := obj_ne_abs hty i
+    simp only [typeName_obj hi, bind, Except.bind, filter_vselsOfS c.q ty _ hvne]
     have hmem : ∀ x ∈ mineOf c.q (.object i) sels, x ∈ sels ∧ selOn c.q x = some (.object i) := fun x hx => mem_mineOf hx
     have hcont : (List.filterMap inlineTy (marks c.q sels)).contains (TypeId.object i) =
         !(mineOf c.q (.object i) sels).isEmpty := by
@@ -643,25 +786,25 @@ theorem stepQ2 (f : Nat) (H2 : Q2 c N M f) (H3 : Q3 c N M f) : Q2 c N M (f + 1) 
     rw [List.map_cons, List.flatMap_cons, hvo, ← varItems_mineOf c pfx (.object i) sels]
     by_cases hm : mineOf c.q (.object i) sels = []
     · -- unit variant
-      simp only [hm, show vselsOfS c.q [] = [] from rfl, hrest, pure, Except.pure]
+      simp only [hm, show vselsOfS c.q ty [] = [] from rfl, hrest, pure, Except.pure]
       simp [variantHead, hm, varItems]
     · by_cases hs : ∃ g, mineOf c.q (.object i) sels = [Sel.spread g]
       · -- a lone spread: the type alias
         obtain ⟨g, hg⟩ := hs
-        obtain ⟨vt', fr, hok, hfr, hfon, _⟩ := hsp g (hmem _ (by rw [hg]; simp)).1
-        have hv : vselsOfS c.q [Sel.spread g] = [.spread g fr] := by simp [vselsOfS, vselOfS, hfr]
+        have hgm := hmem (.spread g) (by rw [hg]; simp)
+        obtain ⟨fr, hok, hfr, hfon⟩ := hsp.onVt hvne hgm.1 hgm.2
+        have hne2 : (fr.on == ty) = false := by rw [hfon]; simpa using hvne
+        have hv : vselsOfS c.q ty [Sel.spread g] = [.spread g fr] := by simp [vselsOfS, vselOfS, hfr, hne2]
         simp only [hg, hv, hrest, pure, Except.pure, not_recursive_of_fragOk hok]
         simp [variantHead, hg, varItems, varItem, fragName, hfr]
       · -- the variant struct
         have hs' : ∀ g, mineOf c.q (.object i) sels ≠ [Sel.spread g] := fun g hg => hs ⟨g, hg⟩
-        have hfrs : ∀ g, Sel.spread g ∈ mineOf c.q (.object i) sels → ∃ f, c.q.fragments[g]? = some f := by
-          intro g hg
-          obtain ⟨_, fr, _, hfr, _⟩ := hsp g (hmem _ hg).1
-          exact ⟨fr, hfr⟩
-        obtain ⟨v, vs, hvs, hnot⟩ := vselsOfS_shape c.q (.object i) _ hfrs (fun x hx => (hmem x hx).2) hm hs'
+        have hfrs : ∀ g, Sel.spread g ∈ mineOf c.q (.object i) sels → ∃ f, c.q.fragments[g]? = some f :=
+          fun g hg => hsp.frag g (hmem _ hg).1
+        obtain ⟨v, vs, hvs, hnot⟩ := vselsOfS_shape c.q ty (.object i) hvne _ hfrs (fun x hx => (hmem x hx).2) hm hs'
         have hlen : (mineOf c.q (.object i) sels).length ≤ sels.length := List.length_filter_le _ _
         have h3 := H3 (pfx ++ "On" ++ objName c.s (.object i)) pfx ty (.object i) (mineOf c.q (.object i) sels) e
-          (fun t sub hmm => hI t sub (hmem _ hmm).1) (by omega) (sSels_filter _ ht)
+          (fun t sub hmm => hI t sub (hmem _ hmm).1) (by omega) hty (sSels_filter _ ht)
           (fun g hg => hsp g (hmem _ hg).1) (fun x hx => (hmem x hx).2) ⟨i, rfl, hi⟩
         rw [hvs] at h3
         simp only [hvs, h3, hrest, pure, Except.pure]
@@ -701,7 +844,7 @@ theorem stepQ1a (hM : ∀ ty vts, variantsOf c.s ty = .ok (some vts) → vts.len
     cases e with
     | zero => simp only [C02.Fneed]; unfold C02.Sb at hF; omega
     | succ e' => simp only [C02.Fneed]; rw [C02.Sb_succ] at hF; omega) ht hspA
-  have hvar : calcVariants c f name pfx (vselsOfS c.q sels) (vtsOfTy c.s ty) =
+  have hvar : calcVariants c f name pfx (vselsOfS c.q ty sels) (vtsOfTy c.s ty) =
       .ok ((vtsOfTy c.s ty).map (variantOf c pfx (marks c.q sels)),
         (vtsOfTy c.s ty).flatMap (fun vt => variantHead c pfx vt sels ++ varItems c pfx vt sels)) := by
     cases e with
@@ -711,7 +854,7 @@ theorem stepQ1a (hM : ∀ ty vts, variantsOf c.s ty = .ok (some vts) → vts.len
         | nil => rfl
         | cons x xs => have := C02.selsDepth_cons_pos x xs; omega
       subst this
-      apply H2 name pfx ty [] _ 0 (fun t sub hm => by simp at hm) _ ht hspA hobj
+      apply H2 name pfx ty [] _ 0 (fun t sub hm => by simp at hm) _ hty ht hspA hobj
       simp only [C02.Fneed, List.length_nil]; unfold C02.Sb at hF; omega
     | succ e' =>
       have hI : InlB N e' sels := by
@@ -721,13 +864,11 @@ theorem stepQ1a (hM : ∀ ty vts, variantsOf c.s ty = .ok (some vts) → vts.len
         rw [selDepth.eq_2] at h1
         rw [selSize.eq_2] at h2
         omega
-      apply H2 name pfx ty sels _ e' hI _ ht hspA hobj
+      apply H2 name pfx ty sels _ e' hI _ hty ht hspA hobj
       cases e' with
       | zero => simp only [C02.Fneed]; rw [C02.Sb_succ] at hF; unfold C02.Sb at hF; omega
       | succ e'' => simp only [C02.Fneed]; rw [C02.Sb_succ, C02.Sb_succ] at hF; omega
-  have hfm := filterMapM_variantSelS c.q ty sels (fun g hg => by
-    obtain ⟨vt, fr, _, hfr, hon, hne⟩ := hspA g hg
-    exact ⟨fr, hfr, by rw [hon]; exact hne⟩)
+  have hfm := filterMapM_variantSelS c.q ty sels hspA.frag
   simp only [hv, bind, Except.bind, pure, Except.pure, hfm, hvar, hfields]
   simp [absItemsS, variantsV, otherVariants]
 
